@@ -110,8 +110,23 @@ def build_reader(case, data, tmpdir, cls=AudioReader, record=None):
             return cls(WaveAudioSource(path), **kw), cleanup
         return cls(path, large_file=(kind == "wav_lazy"), **kw), cleanup
     if kind == "stdin":
-        sys.stdin = FakeStdin(data)
-        return cls("-", **kw, **ap), cleanup
+        import random
+
+        from .stdin import PipeStdin
+
+        # a real pipe (BufferedReader + fileno), fed by a slow producer in chunks smaller than a block
+        ps = PipeStdin(data, random.Random(case["seed"]), max_chunk=max(1, min(7, case["block"] * width * channels - 1)))
+        sys.stdin = ps
+
+        def cleanup_pipe():
+            sys.stdin = old_stdin
+            ps.close()
+
+        try:
+            return cls("-", **kw, **ap), cleanup_pipe
+        except Exception:
+            cleanup_pipe()
+            raise
     raise ValueError(kind)
 
 
